@@ -10,6 +10,7 @@ from vf.stdio_harness import run_stdio_script
 ID = "C05"
 LEVEL = "exploration"
 BACKENDS = ["pydantic", "fallback"]   # every case is executed under both validation backends
+LOGLEVELS = ["default", "debug"]   # every case also runs with the root logger at DEBUG (as --verbose does)
 SHARDS = {"quick": 8, "thorough": 16}
 BUDGET_S = {"quick": 100.0, "thorough": 900.0}
 TECHNIQUE = ("runtime monitoring: read-stream and notification-stream recorder on the real StdioClient fed by a scripted "
